@@ -170,4 +170,111 @@ theorem decode_encodeSPSig {m : SPSig} (h : m.WF) : decodeSPSig (encodeSPSig m) 
   simp only [readU64_leBytes _ h.signer, e4]
   rw [← hE, decode_encodePSigs h.message]
 
+/-! ### dynamic lists of byte lists (the justification lists of `qbft.Message`) -/
+
+@[simp] theorem offTable_length (off : Nat) (l : List (List Nat)) : (offTable off l).length = 4 * l.length := by
+  induction l generalizing off with
+  | nil => rfl
+  | cons x r ih => simp [offTable, ih]; omega
+
+/-- the table entries that follow the entry of the head item -/
+def tabTail (offset : Nat) : List (List Nat) → List Nat
+  | [] => []
+  | x :: r => offTable (offset + x.length) r
+
+theorem readOffset_prefix (n : Nat) (h : n < 2 ^ 32) (t : List Nat) : readOffset (leBytes 4 n ++ t) = .ok n := by
+  have h1 : ¬ (leBytes 4 n ++ t).length < 4 := by simp
+  simp only [readOffset, h1, if_false]
+  rw [List.take_append_of_le_length (by simp), List.take_of_length_le (by simp)]
+  exact congrArg _ (leVal_leBytes 4 n (by simpa using h))
+
+theorem dynLoop_enc (src B : List Nat) (M : Nat) :
+    ∀ (l : List (List Nat)), l ≠ [] → (∀ x ∈ l, x.length ≤ M) → ∀ offset dst,
+      src.drop offset = l.flatten → offset ≤ src.length → offset + l.flatten.length < 2 ^ 32 →
+      dst = tabTail offset l ++ B →
+      dynLoop src (justItem M) l.length offset dst = .ok l := by
+  intro l
+  induction l with
+  | nil => intro h; exact absurd rfl h
+  | cons x r ih =>
+    intro _ hM offset dst hdrop hle hlt hdst
+    have hx : x.length ≤ M := hM x (by simp)
+    have hxs : slice src offset (offset + x.length) = .ok x := by
+      have hlen : src.length = offset + (x :: r).flatten.length := by
+        have := congrArg List.length hdrop
+        simp only [List.length_drop] at this; omega
+      have hb : offset ≤ offset + x.length ∧ offset + x.length ≤ src.length := by
+        simp only [List.flatten_cons, List.length_append] at hlen; omega
+      simp only [slice, hb, and_self, if_true, hdrop, List.flatten_cons]
+      simp
+    cases r with
+    | nil =>
+      simp only [List.length_cons, List.length_nil, Nat.zero_add, dynLoop, bind_eq]
+      have hend : src.length = offset + x.length := by
+        have := congrArg List.length hdrop
+        simp only [List.length_drop, List.flatten_cons, List.flatten_nil, List.append_nil] at this; omega
+      simp only [ne_eq, not_true_eq_false, if_false, Res.bind]
+      rw [if_neg (by omega), if_neg (by omega), hend, hxs]
+      simp only [justItem, if_neg (by omega : ¬ x.length > M)]
+      rfl
+    | cons y r' =>
+      have hd : dst = leBytes 4 (offset + x.length) ++ (offTable (offset + x.length + y.length) r' ++ B) := by
+        rw [hdst]; simp [tabTail, offTable]
+      have hfl : (x :: y :: r').flatten.length = x.length + (y :: r').flatten.length := by simp
+      have hro : readOffset dst = .ok (offset + x.length) := by
+        rw [hd]; exact readOffset_prefix _ (by omega) _
+      have hsf : sliceFrom dst 4 = .ok (offTable (offset + x.length + y.length) r' ++ B) := by
+        rw [hd]; exact sliceFrom_end _ _ 4 (by simp)
+      have hlen : src.length = offset + (x :: y :: r').flatten.length := by
+        have := congrArg List.length hdrop
+        simp only [List.length_drop] at this; omega
+      have hrec := ih (by simp) (fun z hz => hM z (by simp [hz])) (offset + x.length)
+        (offTable (offset + x.length + y.length) r' ++ B)
+        (by rw [← List.drop_drop, hdrop]; simp)
+        (by omega) (by omega) (by simp [tabTail])
+      have hdl : ¬ dst.length < 4 := by rw [hd]; simp
+      simp only [List.length_cons] at hrec ⊢
+      unfold dynLoop
+      simp only [bind_eq, ne_eq, Nat.add_eq_right, Nat.add_eq_zero_iff, Nat.succ_ne_self, and_false, not_false_eq_true,
+        if_true, hdl, if_false, hro, hsf, Res.bind]
+      rw [if_neg (by omega), if_neg (by omega), hxs]
+      simp only [justItem, if_neg (by omega : ¬ x.length > M)]
+      rw [hrec]
+
+theorem decodeDynamicLength_enc (items : List (List Nat)) (m : Nat) (hn : items.length ≤ m) (h32 : 4 * items.length < 2 ^ 32) :
+    decodeDynamicLength (encodeDyn items) m = .ok items.length := by
+  cases items with
+  | nil => simp [encodeDyn, offTable, decodeDynamicLength]
+  | cons x r =>
+    have hlen : (encodeDyn (x :: r)).length = 4 * (r.length + 1) + (x :: r).flatten.length := by simp [encodeDyn]
+    have hs : slice (encodeDyn (x :: r)) 0 4 = .ok (leBytes 4 (4 * (r.length + 1))) := by
+      have := slice_mid [] (leBytes 4 (4 * (r.length + 1))) (offTable (4 * (r.length + 1) + x.length) r ++ (x :: r).flatten) 0 4 rfl (by simp)
+      simpa [encodeDyn, offTable, List.append_assoc] using this
+    unfold decodeDynamicLength
+    rw [if_neg (by omega), if_neg (by omega)]
+    simp only [bind_eq, hs, Res.bind, readOffset_leBytes _ (by simpa using h32)]
+    rw [if_neg (by omega), if_neg (by simp only [List.length_cons] at hn; omega)]
+    simp
+
+theorem unmarshalDynamic_enc (items : List (List Nat)) (M : Nat) (hM : ∀ x ∈ items, x.length ≤ M)
+    (h32 : 4 * items.length + items.flatten.length < 2 ^ 32) :
+    unmarshalDynamic (encodeDyn items) items.length (justItem M) = .ok items := by
+  cases items with
+  | nil => simp [unmarshalDynamic]
+  | cons x r =>
+    unfold unmarshalDynamic
+    rw [if_neg (by simp)]
+    have he : encodeDyn (x :: r) = leBytes 4 (4 * (r.length + 1)) ++ (offTable (4 * (r.length + 1) + x.length) r ++ (x :: r).flatten) := by
+      simp [encodeDyn, offTable]
+    have hro : readOffset (encodeDyn (x :: r)) = .ok (4 * (r.length + 1)) := by
+      rw [he]; exact readOffset_prefix _ (by simp only [List.length_cons] at h32; omega) _
+    have hsf : sliceFrom (encodeDyn (x :: r)) 4 = .ok (offTable (4 * (r.length + 1) + x.length) r ++ (x :: r).flatten) := by
+      rw [he]; exact sliceFrom_end _ _ 4 (by simp)
+    simp only [bind_eq, hro, hsf, Res.bind]
+    refine dynLoop_enc (encodeDyn (x :: r)) ((x :: r).flatten) M (x :: r) (by simp) hM _ _ ?_ ?_ ?_ ?_
+    · simp [encodeDyn]
+    · simp [encodeDyn]
+    · simp only [List.length_cons] at h32; omega
+    · simp [tabTail]
+
 end Ssv.Ssz
